@@ -875,7 +875,7 @@ Proof.
 Qed.
 Lemma cap_list_depth capN : capacity_ok capN -> capN <= cap ek (list_depth ek capN).
 Proof.
-  intros [_ Hc]. unfold cap, list_depth.
+  intros Hc. unfold capacity_ok in Hc. unfold cap, list_depth.
   assert (H1 : capN <= pow2 (int_log capN)).
   { unfold int_log. apply int_log_aux_spec. cbn [Nat.add].
     assert (E : 2 ^ 63 <= pow2 64) by (unfold pow2; apply N.pow_le_mono_r; lia). lia. }
